@@ -13,7 +13,20 @@ for d in sorted(glob.glob("/verif/seeded/*/")):
         if f:
             first = re.sub(r"\s+", " ", f.replace("|", "/"))[3:150]
             break
-    missed_before = any(not any(x.get("rc") == 1 for x in (h.get("checks") or {}).values()) for h in m.get("check_history", []) if h.get("checks"))
+    # stages that did not exist when the change was written (session 4): a first report from one of them means that the checks
+    # as they stood would have missed the change (the stages of a check run in a fixed order and report the first violation)
+    NEW = ("x_big_", "x_top_price", "x_long_queue", "x_ties_modify_reload", "py_view_", "py_numpy_", "gen_env_modify_partial", "gen_menv_modify_partial",
+           "rand_env_modify", "sim_outcomes", "gen_create_max_tick3", "gen_reload_tick2_top", "gen_toggle_top_price", "agents_momentum_saturated",
+           "py_repo_scenarios", "py_rand_env_engine", "py_rand_numpy_engine", "gen_env_clock", "gen_menv_clock")
+    NEWTXT = ("env_every_size", "sim_runner_", "market_sim_runner_", '"kind": "code"', "StepEnv(seed=", "settime")
+    f0 = ""
+    for c in det:
+        f0 = (m.get("checks", {}).get(c, {}) or {}).get("first") or ""
+        if f0:
+            break
+    stage = f0[3:].split(":")[0].strip() if f0.startswith("->") else ""
+    by_new_stage = bool(det) and (stage.startswith(NEW) or any(t in f0 for t in NEWTXT) or m.get("strengthened_before_first_run"))
+    missed_before = by_new_stage or any(not any(x.get("rc") == 1 for x in (h.get("checks") or {}).values()) for h in m.get("check_history", []) if h.get("checks"))
     rows.append("| %s_%s | %s | %s%s | %s |" % (m["property"], m["variant"], summ, ", ".join(det) or "**none**",
                                                " (after strengthening)" if missed_before and det else "", first))
 print("| change | what it does | caught by | first report |\n|---|---|---|---|")
